@@ -222,7 +222,7 @@ static vproxy *module_in_state(Scn const &sc, int state, long &next)
   vproxy *px = new_px(sc);
   next = 0;
   if (state >= 1) {
-    if (px->config(all_conf(sc)) != 0) { fprintf(stderr, "HARNESS-ERROR: scenario %s rejected: %s\n", sc.id.c_str(), px->errtxt.c_str()); _exit(2); }
+    if (px->config(all_conf(sc)) != 0) { fprintf(stderr, "HARNESS-ERROR: scenario %s rejected: %s\n", sc.id.c_str(), px->errtxt.c_str()); _exit(3); }
   }
   if (state == 2) {
     for (long s = 0; s < 3; s++) { place(*px, s); if (px->step(s) != 0) { fprintf(stderr, "HARNESS-ERROR: scenario %s step: %s\n", sc.id.c_str(), px->errtxt.c_str()); _exit(2); } }
